@@ -258,3 +258,66 @@ M("C01", "benign: rename temp in word_trans", FS, """        d = l ? fsg_link_to
         for (root = fsg_lextree_root(fsgs->lextree, (l ? fsg_link_to_state(l) : fsg_model_start_state(fsgs->fsg)));""", kind="benign")
 M("C01", "benign: find_exit reorder disjuncts", FS, """            if ((!final)
                 || fsg_link_to_state(fl) == fsg_model_final_state(fsg)) {""", """            if (fsg_model_final_state(fsg) == fsg_link_to_state(fl) || !final) {""", kind="benign")
+
+DC = "src/decoder.c"
+AC = "src/acmod.c"
+# ---- C03 ----------------------------------------------------------------------
+M("C03", "seg: sf without +1", FS, "seg->sf = ph ? fsg_hist_entry_frame(ph) + 1 : 0;", "seg->sf = ph ? fsg_hist_entry_frame(ph) : 0;", "PROV.S1-times")
+M("C03", "seg: ef from pred", FS, "seg->ef = fsg_hist_entry_frame(hist_entry);", "seg->ef = ph ? fsg_hist_entry_frame(ph) : 0;", "PROV.S1-times")
+M("C03", "seg: clamp inverted", FS, "    if (seg->sf > seg->ef)\n        seg->sf = seg->ef;", "    if (seg->sf < seg->ef)\n        seg->sf = seg->ef;", "PROV.S1-times")
+M("C03", "seg: ascr forgets lscr", FS, "seg->ascr = hist_entry->score - ph->score - seg->lscr;", "seg->ascr = hist_entry->score - ph->score;", "LIN.S2-score")
+M("C03", "seg: ascr nopred double lscr", FS, "seg->ascr = hist_entry->score - seg->lscr;", "seg->ascr = hist_entry->score - seg->lscr - seg->lscr;", "LIN.S2-score")
+M("C03", "seg: word from pred link", FS, "seg->word = fsg_model_word_str(fsgs->fsg, hist_entry->fsglink->wid);", "seg->word = fsg_model_word_str(fsgs->fsg, ph && ph->fsglink ? ph->fsglink->wid : hist_entry->fsglink->wid);", "PROV.S1-times")
+M("C03", "hyp: fill pass keeps fillers", FS, """        if (wid < 0 || fsg_model_is_filler(fsgs->fsg, wid))
+            continue;
+        baseword = dict_basestr(dict,
+                                dict_wordid(dict,
+                                            fsg_model_word_str(fsgs->fsg, wid)));
+        len = strlen(baseword);""", """        if (wid < 0)
+            continue;
+        baseword = dict_basestr(dict,
+                                dict_wordid(dict,
+                                            fsg_model_word_str(fsgs->fsg, wid)));
+        len = strlen(baseword);""", "TWIN.S3-hyp-passes")
+M("C03", "hyp: count forgets separator", FS, "        len += strlen(baseword) + 1;", "        len += strlen(baseword);", "TWIN.S3-hyp-passes")
+M("C03", "hyp: separator unguarded", FS, """        if (c > search->hyp_str) {
+            --c;
+            *c = ' ';
+        }""", """        {
+            --c;
+            *c = ' ';
+        }""", "TWIN.S3-hyp-passes")
+M("C03", "hyp: word not base form", FS, """        baseword = dict_basestr(dict,
+                                dict_wordid(dict,
+                                            fsg_model_word_str(fsgs->fsg, wid)));
+        len += strlen(baseword) + 1;""", """        baseword = fsg_model_word_str(fsgs->fsg, wid);
+        len += strlen(baseword) + 1;""", "TWIN.S3-hyp-passes")
+M("C03", "forward: advance skipped on k==0", DC, """            return k;
+        acmod_advance(d->acmod);
+        ++d->n_frame;""", """            return k;
+        if (k > 0) acmod_advance(d->acmod);
+        ++d->n_frame;""", "PAIR.S4-frames")
+M("C03", "forward: nfr counted twice", DC, "        ++d->n_frame;\n        ++nfr;", "        ++d->n_frame;\n        ++nfr;\n        if (d->acmod->n_feat_frame == 0) ++nfr;", "PAIR.S4-frames")
+M("C03", "process_int16: returns last count", DC, """        if ((nfr = search_module_forward(d)) < 0)
+            return nfr;
+        n_searchfr += nfr;
+    }
+
+    return n_searchfr;
+}
+
+int
+decoder_end_utt""", """        if ((nfr = search_module_forward(d)) < 0)
+            return nfr;
+        n_searchfr = nfr;
+    }
+
+    return n_searchfr;
+}
+
+int
+decoder_end_utt""", "PAIR.S4-frames")
+M("C03", "advance: output_frame twice", AC, "    --acmod->n_feat_frame;\n    ++acmod->mgau->frame_idx;", "    --acmod->n_feat_frame;\n    ++acmod->mgau->frame_idx;\n    if (acmod->n_feat_frame == 0) ++acmod->output_frame;", "PAIR.S4-frames")
+M("C03", "seg_iter: fill from front", FS, "    cur = itor->n_hist - 1;\n    bp = bpidx;", "    cur = 0;\n    bp = bpidx;", "PROV.S6-order")
+M("C03", "seg_next: off by one end", FS, "    if (++itor->cur == itor->n_hist) {", "    if (++itor->cur == itor->n_hist - 1) {", "PROV.S6-order")
+M("C03", "benign: ascr reordered", FS, "seg->ascr = hist_entry->score - ph->score - seg->lscr;", "seg->ascr = hist_entry->score - (seg->lscr + ph->score);", kind="benign")
